@@ -19,6 +19,8 @@ VOCAB = [
     '2 * 3', 'a * b * c', 'x　_　y', '5 * 6 *', '* x *', 'http://x.y/z', 'www.x.y', 'a.b@c.d',
     # delimiter runs next to punctuation: flanking (6.2) decides, and two closers (or two openers) never pair
     '(_', '_)', '(*', '*)', '"_', '_"', '(__', '__)', '._', '_.', 'x_)', '(_x', '*,', ',*', '_,', '!_', 'x*)', '(*x', '**.', '.**', '_;', '-_', '_-',
+    # words that are names of HTML elements: without a '<' in front they start nothing (4.6)
+    'p', 'table', 'Summary', 'title', 'main', 'form', 'link', 'section', 'header', 'div', 'pre', 'script', 'style', 'hr', 'li', 'body', 'html', 'address', 'details',
     # single tildes that cannot pair (GFM strikethrough needs an opener before a closer)
     '~ 5', '~7', '~x', 'x ~', '~,',
     # 6.2: what merely looks like a character reference
